@@ -5,7 +5,7 @@
    one, user by user; what a restart loads is exactly the users table and it writes nothing; a restart with no kill in
    between changes no subscription.  The check ties `restart` to the code through the crash harness (kill points H2,
    real bootstrap), whose runs C07's check now also reads (tools/props/c07.py). *)
-From TeosModel Require Import Base TxIndex Tower TowerStable TowerInv Crash CrashOps CrashOpsProofs CrashReach.
+From TeosModel Require Import Base TxIndex Tower TowerStable TowerInv TowerLedger Crash CrashOps CrashOpsProofs CrashReach.
 Local Open Scope N_scope.
 
 Theorem C07_memory_eq_disk_across_restarts le t :
@@ -20,6 +20,16 @@ Theorem C07_clean_restart_keeps_subscriptions t : Inv t ->
             aget (db_users (restart t (db_of t))) u = aget (db_users t) u.
 Proof. exact (clean_restart_keeps_users t). Qed.
 
+(* the ledger of C07_ledger.v (granted = available + held + forfeited, user by user) survives a clean restart:
+   available, held and the set of users with a row are those of the tables, which a restart does not touch *)
+Theorem C07_ledger_across_clean_restart t l : Led t l -> Led (restart t (db_of t)) l.
+Proof. exact (ledger_across_clean_restart t l). Qed.
+
+Theorem C07_restart_keeps_available_and_held t v :
+  avail (restart t (db_of t)) v = avail t v /\ held_t (restart t (db_of t)) v = held_t t v /\
+  bal (restart t (db_of t)) v = bal t v /\ has_row (restart t (db_of t)) v = has_row t v.
+Proof. exact (restart_bal t v). Qed.
+
 (* the premises are met by a state behind a registration, a kill inside a second one and a restart *)
 Theorem C07_restart_reachable_somewhere : exists t, rreach true t /\ exists u, aget (gk_users t) u <> None.
 Proof. exact rreach_somewhere. Qed.
@@ -28,3 +38,5 @@ Print Assumptions C07_memory_eq_disk_across_restarts.
 Print Assumptions C07_restart_loads_the_users_table.
 Print Assumptions C07_clean_restart_keeps_subscriptions.
 Print Assumptions C07_restart_reachable_somewhere.
+Print Assumptions C07_ledger_across_clean_restart.
+Print Assumptions C07_restart_keeps_available_and_held.
